@@ -8,6 +8,7 @@ else, are checked by the sandbox snapshots of the correspondence run, not proved
 -/
 import GrcovModel.Confine
 import GrcovModel.Props.C19Dest
+import GrcovModel.Props.C19Extract
 namespace Grcov.Props.C19
 open Grcov.Confine
 
@@ -34,15 +35,21 @@ theorem C19_enclosed_stays_in_tmp (tmp : Path) (entry : Path) (f : List Nat → 
   have := resolveOnto_enclosed (resolveOnto [] tmp) [] (renameLast f entry) 0 rfl hd
   simpa using this
 
-/-- What the producer accepts today (entry names made of normal components only, after the two
-zip-slip fixes) is inside that domain, so every accepted entry lands below the temp dir. -/
+/-- What the producer extracts today (the canonical spelling of an accepted entry name: normal
+components only; since fix 2f541c3 a name with a leading `./`, repeated separators or `.` segments is
+accepted and spelled that way, `Producer.canonName`) is inside that domain, so every accepted entry
+lands below the directory it is joined onto (`tmp/inputs` since fix 232bfd3; the string-level
+statement is `C19_accepted_zip_names_stay_in_inputs`). -/
 theorem C19_accepted_names_stay_in_tmp (tmp : Path) (entry : Path) (f : List Nat → List Nat)
     (h : plain entry = true) :
     ∃ rest, resolve (join tmp (renameLast f entry)) = resolve tmp ++ rest :=
   C19_enclosed_stays_in_tmp tmp entry f (enclosed_of_plain entry h)
 
-/-- a `.` segment is no longer accepted although it is enclosed: `shared/./x` reaches the same
-destination as another archive's `shared/x` (the defect repaired by the second fix) -/
+/-- `shared/./x` reaches the same destination as `shared/x` (the defect repaired by fix b6c32a1:
+the raw spelling was joined onto the temp dir). Since fix 2f541c3 both spellings are accepted and
+listed under the ONE canonical name, whose components are normal; a second entry of that canonical
+name in the same archive is skipped, and across archives the number `_<n>` keeps the destinations
+apart (`C19_extract_dest_injective`, `C19_no_write_through_link`). -/
 theorem C19_dot_segment_same_destination :
     let tmp : Path := [.root, .normal [116]]
     resolve (join tmp [.normal [115], .cur, .normal [120]]) = resolve (join tmp [.normal [115], .normal [120]])
